@@ -440,7 +440,8 @@ def generate(run_seed, tier):
             elif r < 0.7:
                 sub = ['flip']
             ops.append(['store_spectrum', o.choice(['flux', 'flux', 'simple',
-                                                    'native', 'lightcurve']),
+                                                    'native', 'lightcurve',
+                                                    'flux_desc']),
                         o.choice([1, 3, 6, 1, 3, 6, -2, 0, 2, 4, 5]),
                         'Spectra%d' % len(ops), sub,
                         o.random() < 0.3])
@@ -918,6 +919,14 @@ def execute(case, keep_text=False):
     def make_binner(kind, obs):
         if kind == 'flux':
             return obs.create_binner()
+        if kind == 'flux_desc':
+            # the same bins handed over in descending wavenumber order (a
+            # wavelength-ordered list turned into wavenumbers); the binner
+            # sorts them
+            from taurex.binning import FluxBinner
+            return FluxBinner(
+                wngrid=np.array(obs.wavenumberGrid)[::-1].copy(),
+                wngrid_width=np.array(obs.binWidths)[::-1].copy())
         if kind == 'simple':
             from taurex.binning import SimpleBinner
             return SimpleBinner(wngrid=np.array(obs.wavenumberGrid))
@@ -1093,6 +1102,8 @@ def check_spectrum_group(viol, out, g, bkind, size, res, cfg):
     native_wn, native_y, native_tau = res
     warped = bkind.endswith(':warped')
     bkind = bkind.split(':')[0]
+    if bkind == 'flux_desc':
+        bkind = 'flux'
     keys = set(g.keys())
 
     def arr(k):
